@@ -1,4 +1,5 @@
 import FstVerif.Proofs.Sink
+import FstVerif.Proofs.Glue
 /-
 C11 — I/O failures surface as errors, never as panics or silent success.
 Statements here; proofs in Proofs/Sink.lean. A failing response is `take 0`
@@ -46,5 +47,29 @@ theorem C11_step_outcomes (x : IOB) (r : Except BErr BState) :
       cases res with
       | ok u => cases u; exact Or.inl rfl
       | error e => exact Or.inr (Or.inr ⟨e, rfl⟩)
+
+
+/-! ### batch entry points over a failing sink (`extend_iter` / `extend_stream`; Model/Glue.lean) -/
+
+/-- if ANY response the sink served during a batch call is a failing one, the batch returns
+Err(Io) — and (`C11_batch_stops`) nothing is called after the failing call -/
+theorem C11_batch_fault (x : IOB) (calls : List BCall) (used : List Resp)
+    (hu : x.cw.sink.script = used ++ (x.extend calls).1.cw.sink.script)
+    (bad : Resp) (hmem : bad ∈ used) (hbad : Bad bad) :
+    ∃ e, (x.extend calls).2 = .error (.io e) := Glue.extend_io_fault x calls used hu bad hmem hbad
+
+theorem C11_batch_stops (x : IOB) (calls : List BCall) (e : CallErr) (h : (x.extend calls).2 = .error e) :
+    ∃ pre c post x1, calls = pre ++ c :: post ∧ Glue.OkRun x pre x1 ∧ (x1.call c).2 = .error e ∧
+      (x.extend calls).1 = (x1.call c).1 := (Glue.extend_spec x calls).2.2 e h
+
+/-- the error a batch reports is the sink's own first failure (kind preserved: `errOf`) -/
+theorem C11_batch_first_fault (x : IOB) (calls : List BCall) (e : IoErr)
+    (h : (x.extend calls).2 = .error (.io e)) :
+    ∃ good bad, x.cw.sink.script = good ++ bad :: (x.extend calls).1.cw.sink.script ∧
+      Benign good ∧ Bad bad ∧ e = errOf bad := Glue.extend_first_fault x calls e h
+
+theorem C11_batch_outcomes (x : IOB) (calls : List BCall) :
+    (x.extend calls).2 = .ok () ∨ (∃ e, (x.extend calls).2 = .error (.fst e)) ∨
+      (∃ e, (x.extend calls).2 = .error (.io e)) := Glue.extend_outcomes x calls
 
 end Fst.Props
